@@ -35,6 +35,7 @@ class Ctx:
         self.seed = seed
         self.rng = Rng(seed, prop)
         self.driver = lean.Driver(driver_rel)
+        self._extra_drivers = {}
         self.stats = collections.Counter()
         self.evaluations = 0
         self._nontrivial = set()
@@ -91,8 +92,16 @@ class Ctx:
             self.failures.append({"sig": sig, "case": case, "observed": observed, "required": required, "what": what})
 
     # -- lean driver ------------------------------------------------------------------
-    def lean(self, lines):
-        return self.driver.batch(lines)
+    def lean(self, lines, driver=None):
+        """Batch `lines` through the property's Lean driver (or another driver file,
+        e.g. "Driver/C04Opack.lean"); one answer per line."""
+        if driver is None or driver == self.driver.driver_rel:
+            return self.driver.batch(lines)
+        d = self._extra_drivers.setdefault(driver, lean.Driver(driver))
+        try:
+            return d.batch(lines)
+        finally:
+            self.driver.lines_sent += len(list(lines)) if not isinstance(lines, list) else len(lines)
 
 
 def load_findings():
